@@ -180,6 +180,7 @@ func (s *Sim) Probe(name string) { s.Stats.Probes[name]++ }
 func (s *Sim) install() {
 	s.ctrl = goid()
 	curSim.Store(s)
+	os.VerifFSHook = s.hookOSFS
 	verifhook.Install(&verifhook.Hooks{
 		Yield:     s.hookYield,
 		YieldL:    s.hookYieldL,
@@ -198,7 +199,33 @@ func (s *Sim) install() {
 	})
 }
 
+// hookOSFS is called (through the overlay of package os) before every mutating file-system operation of any
+// goroutine. Operations of the system under test on a simulated disk's directory are crash opportunities of the
+// "oskill" mode: the process dies before the operation, whatever the code around it looks like.
+func (s *Sim) hookOSFS(op, name, name2 string) {
+	if s.reaping.Load() || goid() == s.ctrl {
+		return
+	}
+	s.mu.Lock()
+	var d *Disk
+	for _, x := range s.disks {
+		if x.Mode == "oskill" && x.ArmAt >= 0 && !x.Fired && !s.deadInst[x.Inst] && strings.HasPrefix(name, x.Dir+"/") {
+			d = x
+		}
+	}
+	s.mu.Unlock()
+	if d == nil {
+		return
+	}
+	base := name[strings.LastIndexByte(name, '/')+1:]
+	if strings.Trim(base, "0123456789") == "" {
+		base = "N"
+	}
+	_ = d.opportunity("os." + op + ":" + base)
+}
+
 func (s *Sim) uninstall() {
+	os.VerifFSHook = nil
 	s.reap()
 	// descriptors of instances that were never shut down (the run simply ends) must not accumulate
 	for _, d := range s.disks {
